@@ -83,24 +83,29 @@ class Runner:
         for pr in problems:
             R.monitor("accepts-conforming", False, where={"kind": "rejected-conforming", "top": "generic", "at": "generic", "origin": "battery-construction", "error": "construction"}, detail=f"building an obviously valid instance failed: {pr}", case={"battery": pr})
 
-    def make_class(self, attrs: list[tuple[str, Any, Any]]) -> tuple[Any, str] | None:
-        """attrs: (name, term, default or NODEFAULT)"""
+    def make_class(self, attrs: list[tuple[str, Any, Any]], variant: str = "plain") -> tuple[Any, str] | None:
+        """attrs: (name, term, default or NODEFAULT); variant plain | subclass (attributes and defaults inherited) |
+        generic (class K[T] with an extra attribute of type T, used through its specialisation K[int])"""
         self.n += 1
         name = f"K{self.n}"
-        lines = [f"class {name}(State):"]
+        lines = [f"class {name}[T](State):" if variant == "generic" else f"class {name}(State):"]
+        if variant == "generic":
+            lines.append("    hv_t: T")
         for an, term, default in attrs:
             if default is NODEFAULT:
                 lines.append(f"    {an}: {A.render(term)}")
             else:
                 self.N.ns[f"_dflt_{self.n}_{an}"] = default
                 lines.append(f"    {an}: {A.render(term)} = _dflt_{self.n}_{an}")
+        if variant == "subclass":
+            lines += [f"class {name}S({name}):", "    pass"]
         src = "\n".join(lines) + "\n"
         try:
             self.N.define(src)
+            cls = self.N.ns[name + "S"] if variant == "subclass" else (self.N.ns[name][int] if variant == "generic" else self.N.ns[name])
         except BaseException as exc:  # noqa: BLE001
             self.R.monitor("accepts-conforming", False, where={"kind": "class-definition-failed", "error": type(exc).__name__}, detail=f"{src!r} raised {exc!r}", case={"source": src})
             return None
-        cls = self.N.ns[name]
         # keep the namespace small
         if self.n % 50 == 0:
             for k in [k for k in self.N.ns if k.startswith("K") and k[1:].isdigit() and int(k[1:]) < self.n - 5]:
@@ -204,11 +209,13 @@ class Runner:
                     mode = "none"
             attrs.append((f"a{i}", term, default))
             info.append(mode)
-        made = self.make_class(attrs)
+        variant = rng.choice(["plain", "plain", "subclass", "generic"])
+        made = self.make_class(attrs, variant)
         if made is None:
             return
         cls, src = made
-        good: dict[str, Any] = {}
+        self.R.count(f"default_classes_{variant}")
+        good: dict[str, Any] = {"hv_t": 1} if variant == "generic" else {}
         for (an, term, _), mode in zip(attrs, info):
             for _ in range(5):
                 try:
@@ -218,7 +225,7 @@ class Runner:
                 if A.conforms(N, term, v) is True and v is not N.MISSING:
                     good[an] = v
                     break
-        if len(good) != len(attrs):
+        if len(good) != len(attrs) + (1 if variant == "generic" else 0):
             self.R.count("no_conforming_value_found")
             return
         case = {"source": src, "defaults": info}
@@ -229,7 +236,7 @@ class Runner:
                        detail=f"all arguments conforming but construction raised {res!r}; args {good!r}", case=case)
         if status == "ok":
             for an, v in good.items():
-                self.R.monitor("stored-faithfully", A.normal(getattr(res, an, None), N.State) == A.normal(v, N.State), where={"top": "multi", "at": "multi", "origin": "all-conforming", "kind": "stored-differs"},
+                self.R.monitor("stored-faithfully", A.normal(getattr(res, an, None), N.State) == A.normal(v, N.State), where={"top": "multi", "at": "multi", "origin": "all-conforming", "kind": "stored-differs", "variant": variant},
                                detail=f"{an}: supplied {v!r} stored {getattr(res, an, None)!r}", case=case)
         # omit each attribute in turn
         for (an, term, default), mode in zip(attrs, info):
@@ -242,7 +249,7 @@ class Runner:
                     self.R.monitor("required-argument", status != "ok", where={"top": top_kind(term), "kind": "omitted-required-accepted"}, detail=f"{an}: {A.render(term)} omitted, got {res!r}", case=case)
             elif mode == "good":
                 ok = status == "ok" and A.normal(getattr(res, an, None), N.State) == A.normal(default, N.State)
-                self.R.monitor("default-validated", ok, where={"top": top_kind(term), "kind": "conforming-default-not-used", "status": status}, detail=f"{an}: {A.render(term)} default {default!r}, construction without it -> {res!r}", case=case)
+                self.R.monitor("default-validated", ok, where={"top": top_kind(term), "kind": "conforming-default-not-used", "status": status, "variant": variant}, detail=f"{an}: {A.render(term)} default {default!r}, construction without it -> {res!r}", case=case)
             else:
                 self.R.monitor("default-validated", status != "ok", where={"top": top_kind(term), "kind": "violating-default-accepted"}, detail=f"{an}: {A.render(term)} violating default {default!r} accepted -> {getattr(res, an, None)!r}", case=case)
             # one breaker in this attribute while the rest conforms
